@@ -40,6 +40,9 @@ Definition struct_val_insert (k : ident) (v : value) (fs : list (ident * value))
 
 Definition fun_t := TFun [] (TTup [TBool; TInt]).
 
+(* static type of an operand as the implementation computes it (ReturnType is total) *)
+Definition sty (x : instr) : ty := match rt x with Ok s => s | _ => TNever end.
+
 Section WithPowf.
 Variable powf : fbits -> fbits -> fbits.
 Variable pre : prelude.
@@ -492,13 +495,24 @@ Fixpoint exec (fuel : nat) (st : store) (sc : scopes) (i : instr) {struct fuel} 
                   end
               end
           | USum =>
+              (* the reducer is chosen by the run-time type of the iterator among those the
+                 static type of the operand admits (all three when it admits none) *)
               let t := as_type v in
-              if matches t (TFun [] (TTup [TBool; TInt])) then call (p_int_sum pre) [v] st sc
-              else if matches t (TFun [] (TTup [TBool; TFloat])) then call (p_float_sum pre) [v] st sc
+              let s := sty x in
+              let ti := TFun [] (TTup [TBool; TInt]) in
+              let tf := TFun [] (TTup [TBool; TFloat]) in
+              let ts := TFun [] (TTup [TBool; TString]) in
+              let any := matches ti s || matches tf s || matches ts s in
+              let choose := fun c => matches t c && (negb any || matches c s) in
+              if choose ti then call (p_int_sum pre) [v] st sc
+              else if choose tf then call (p_float_sum pre) [v] st sc
               else call (p_string_sum pre) [v] st sc
           | UProduct =>
               let t := as_type v in
-              if matches t (TFun [] (TTup [TBool; TInt])) then call (p_int_product pre) [v] st sc
+              let s := sty x in
+              let ti := TFun [] (TTup [TBool; TInt]) in
+              let tf := TFun [] (TTup [TBool; TFloat]) in
+              if matches t ti && (matches ti s || negb (matches tf s)) then call (p_int_product pre) [v] st sc
               else call (p_float_product pre) [v] st sc
           | UAll | UAny | UBitAnd | UBitOr => (st, sc, SPanic)
           end)
